@@ -3,6 +3,7 @@ from vlib.runner import Obl
 
 PROPERTY = "C05"
 EXPLANATION = (
+    "A-level: real Paragraph/Header/Span construction and successive appends on the lxml model with symbolic strings. "
     "C05 (paragraph text round-trips, white-space normal form): the real white-space pipeline of paragraph.py (_sub_merge_spaces, _merge_spaces, "
     "_sub_replace_tabs_lb, _replace_tabs_lb, _unformatted) on symbolic strings with token classes for text:s/tab/line-break; oracle: decode(tokens) == s and an "
     "independent ODF 1.2 6.1.2 collapsing interpreter (consumer reading: an element ends a white-space run) returns s again. "
@@ -25,4 +26,26 @@ OBLIGATIONS = [
     _o("ws_roundtrip5", 50, "len == 5 over {a, space, tab, LF}"),
     _o("ws_tokens_wellformed", 13, "len <= 4 over {a, space, tab, LF}"),
     _o("unformatted_ok", 4, "len <= 4 over {a, space, tab, LF}"),
+]
+
+
+_AENC = ["src/odfdo/paragraph.py:Paragraph.__init__,append,append_plain_text,_expand_spaces,_merge_spaces,_replace_tabs_lb,_unformatted,Span",
+         "src/odfdo/paragraph_base.py:Spacer,Tab,LineBreak,ParagraphBase.inner_text/_text_tail", "src/odfdo/header.py:Header.__init__",
+         "src/odfdo/element.py:Element.__append,_add_text,delete,children,xpath,text,tail"]
+_ASTUB = ["/verif/shadow/lxml (symdom): pure-Python model of lxml.etree, validated against the repository's own tests (bin/symdom_validate)",
+          "symsupport.SymEText/ETextShim: symbolic-string re-basing of odfdo.element.EText", "uncached xpath_compile"]
+
+
+def _a(fn, secs, bounds, tier="quick"):
+    return Obl(name=fn, module="h_para", func=fn, timeout=max(120, secs * 4), replay="r_h_para:" + fn, tier=tier, shadow=True,
+               weight=secs, bounds=bounds, encodes=_AENC, stubs=_ASTUB)
+
+
+OBLIGATIONS += [
+    _a("para_one", 10, "Paragraph(s), len <= 3 over {a, space, tab, LF}"),
+    _a("para_two_appends", 125, "Paragraph(s1) then append_plain_text(s2), len <= 2 each"),
+    _a("header_two_appends", 145, "Header(1, s1) then append_plain_text(s2), len <= 2 each"),
+    _a("span_two_appends", 135, "Span(s1) then append_plain_text(s2), len <= 2 each"),
+    _a("para_unformatted_append", 126, "Paragraph(s1) then append(s2, formatted=False), len <= 2 each", "thorough"),
+    _a("para_three_appends", 225, "three pieces, len <= 2, 1, 1", "thorough"),
 ]
